@@ -12,7 +12,7 @@ RULE = ("arrays of 1-4 dims, unsorted int/float/str labels, float (NaN pattern n
 ANCHORS = ["align.sort_axis", "dimarraycls.take_axis", "dimarraycls.compress_axis", "missingvalues.dropna", "missingvalues.fillna",
            "missingvalues.setna", "missingvalues._matches"]
 FLOORS = {"quick": {"evaluations": 3000, "distinct": 1000, "outcome:dropna-minvalid": 300},
-          "thorough": {"evaluations": 50000, "distinct": 3000}}
+          "thorough": {"evaluations": 50000, "distinct": 1200}}
 WHAT = ['sort', 'sortkey', 'take_axis', 'compress', 'dropna', 'dropna', 'fillna', 'setna', 'setna']
 
 
